@@ -1,5 +1,6 @@
 #!/usr/bin/env python3-vt
-"""Re-run every check against every filed seeded change (/verif/seeded/*/patch.diff) and refresh meta.json + print the matrix."""
+"""Re-run every check against every filed seeded change (/verif/seeded/*/patch.diff) and refresh meta.json + print the matrix.
+usage: tools/seed_matrix.py [substring of the seed names to restrict to, e.g. w8seed]"""
 import json
 import re
 import subprocess
@@ -8,7 +9,7 @@ from concurrent.futures import ThreadPoolExecutor
 from pathlib import Path
 
 V = Path(__file__).resolve().parent.parent
-seeds = sorted(p for p in (V / "seeded").iterdir() if (p / "patch.diff").exists())
+seeds = sorted(p for p in (V / "seeded").iterdir() if (p / "patch.diff").exists() and (len(sys.argv) < 2 or sys.argv[1] in p.name))
 
 
 def run(d):
